@@ -55,8 +55,8 @@ chk("C06", "fault_enumeration",
     "Trusted: inline runner stands for the process pool; allowmaxlength=true; older load/ directories and traj.txt file names (pid, counter) are not compared.",
     "exhaustive enumeration of restart split points and completion orders on the real program", "DESIGN.md 4/C06")
 chk("C17", "model_checking",
-    "(a) the real scheduler() with the lattice engine: all (workers 1..3, steps >= workers) x every completion order, then every (stop point, new step count) restart x every completion order: moves completed, cstep, locked, futures consumed exactly once, runner stopped once; (b) [when built] the real aiorunner on a virtual event loop.",
-    "Trusted: inline runner in part (a).",
+    "(a) the real scheduler() with the lattice engine: all (workers 1..3, steps >= workers) x every completion order, then every (stop point, new step count) restart x every completion order: moves completed, cstep, locked, futures consumed exactly once, runner stopped once; (b) the real aiorunner + future_list on a hand-stepped virtual asyncio loop (fake executor, no threads/processes): workers 1..2, 1..3 units each succeeding or raising, all interleavings of worker wake-ups, executor completions in any order, submissions, polls and stop() up to 2 (quick) / 3 (thorough) deviations from a canonical fair schedule: each unit executed once, its result or exception delivered once, clean shutdown.",
+    "Trusted: inline runner in part (a); in part (b) main-thread API calls are atomic events between single event-loop handle executions (bytecode-level races between the two real threads are not explored); deviation-bounded (reported).",
     "exhaustive schedule enumeration on the implementation", "DESIGN.md 4/C17")
 chk("C14", "model_checking",
     "Stateless exploration by replay of the real REPEX_state with the real PathStorage on real files: every accept/reject outcome and every completion order up to depth n_ens+3 (one worker) / 4-6 (two workers), pick outcomes up to a deviation bound, x delete_old x delete_old_all x keep_traj_fnames; after every step every live path is re-loaded with the real load_path and compared frame by frame; initial paths are hashed; a FIFO reference model bounds when a replaced path's files may disappear.",
